@@ -224,6 +224,12 @@ func (g *cfgGen) translate(fn *cfgFunc) {
 				if ct.Name != "any" && ct.Name != "comparable" {
 					c.lost(f, "type constraint %s", src(f.Type))
 				}
+			case *ast.SelectorExpr:
+				// cmp.Ordered: the type stays abstract; its order enters only through functions
+				// declared with value: (cmp.Compare)
+				if src(ct) != "cmp.Ordered" || c.g.values["cmp.Compare"] == "" {
+					c.lost(f, "type constraint %s", src(f.Type))
+				}
 			default:
 				c.lost(f, "type constraint %s", src(f.Type))
 			}
@@ -305,6 +311,17 @@ func (g *cfgGen) translate(fn *cfgFunc) {
 	fmt.Fprintf(&out, "%s : %s :=\n%s.\n", sigText, rt, body)
 	fn.done, fn.text, fn.extras, fn.extraT = true, out.String(), c.extras, c.extraT
 	g.emitted = append(g.emitted, fn.text) // callees are finished first
+}
+
+// cfgIdent: the Coq identifier of an extern key (pkg.F -> pkg_F; kv{}.Compare -> kv_Compare)
+func cfgIdent(key string) string {
+	var b strings.Builder
+	for _, r := range strings.ReplaceAll(key, ".", "_") {
+		if r == '_' || (r >= '0' && r <= '9') || (r >= 'A' && r <= 'Z') || (r >= 'a' && r <= 'z') {
+			b.WriteRune(r)
+		}
+	}
+	return b.String()
 }
 
 func cfgName(n string) string {
@@ -589,6 +606,13 @@ func (c *cfgCtx) stmts(list []ast.Stmt) string {
 		return "  " + c.ret(c.ex(v.Results[0]))
 	case *ast.DeclStmt:
 		gd := v.Decl.(*ast.GenDecl)
+		if gd.Tok == token.TYPE && len(gd.Specs) == 1 {
+			// type kv = stree.KV[T, U]: a local ALIAS declares nothing at run time; the name stays as
+			// written in the keys of extern: declarations (kv{}.Compare)
+			if ts := gd.Specs[0].(*ast.TypeSpec); ts.Assign.IsValid() {
+				return c.stmts(rest)
+			}
+		}
 		if gd.Tok == token.VAR && len(gd.Specs) == 1 {
 			vs := gd.Specs[0].(*ast.ValueSpec)
 			if at, ok := vs.Type.(*ast.ArrayType); ok && at.Len != nil && len(vs.Names) == 1 && len(vs.Values) == 0 {
@@ -843,6 +867,9 @@ func (c *cfgCtx) constInt(e ast.Expr) (string, bool) {
 
 // pkgFunc: a LISTED plain function of the package called by name (toFraction(β)).
 func (c *cfgCtx) pkgFunc(e ast.Expr) *cfgFunc {
+	if base, _ := baseAndArgs(e); base != nil {
+		e = base // NewFunc[T, U](...): an explicit instantiation
+	}
 	id, ok := e.(*ast.Ident)
 	if !ok || (id.Obj != nil && id.Obj.Kind != ast.Fun) {
 		return nil
@@ -887,6 +914,9 @@ func (c *cfgCtx) ex(e ast.Expr) string {
 		}
 	case *ast.SelectorExpr:
 		if id, ok := v.X.(*ast.Ident); ok {
+			if typ, ok := c.g.values[src(v)]; ok && id.Obj == nil && c.vstruct[id.Name] == "" {
+				return c.extra(cfgIdent(src(v)), typ) // a function of another package used as a value (cmp.Compare)
+			}
 			if sn := c.vstruct[id.Name]; sn != "" {
 				return fmt.Sprintf("(%s_%s %s)", sn, v.Sel.Name, id.Name)
 			}
@@ -1123,7 +1153,7 @@ func (c *cfgCtx) call(v *ast.CallExpr) string {
 		}
 	}
 	if typ, ok := c.g.externs[f]; ok {
-		name := c.extra(strings.ReplaceAll(f, ".", "_"), typ)
+		name := c.extra(cfgIdent(f), typ)
 		var args []string
 		for _, a := range v.Args {
 			if strings.Contains(typ, "Flt") {
